@@ -80,9 +80,14 @@ pub fn iso_case(ctx: &Ctx, input: &Input, want: Area) -> CaseResult {
             out.label("skip:walrus-rejected(C05)");
             return Ok(out);
         }
-        Err(_) => {
-            out.label("skip:emit-panic(C02)");
-            return Ok(out);
+        Err(f) => {
+            // a valid module whose round trip panics has no output in which
+            // anything could have been preserved (C02 and C05 say the same
+            // from their side)
+            return Err(Failure::new(
+                format!("round-trip-panicked:{}", f.signature),
+                format!("the round trip of a module the reference validator accepts panicked: {} [{}]", f.detail, p.origin),
+            ));
         }
     };
     let da = match decode(&p.bytes) {
@@ -154,6 +159,33 @@ pub fn iso_case(ctx: &Ctx, input: &Input, want: Area) -> CaseResult {
                 }
             }
             out.label("mode:gc-compared");
+            // the pass is asked to drop what nothing reaches; an active segment
+            // of a table or memory that survives is reached through it, and an
+            // active data segment is a root: they must survive with it
+            if r2.is_ok() && want == Area::Module {
+                for (i, e) in da.elems.iter().enumerate() {
+                    if let crate::decode::ElemMode::Active { table, .. } = &e.mode {
+                        let i = i as u32;
+                        if iso2.tables.fwd.contains_key(table) && !iso2.elems.fwd.contains_key(&i) && !iso2.ambiguous.contains(&("element", i)) {
+                            return Err(Failure::new(
+                                "after-gc:active-element-segment-of-a-surviving-table-dropped",
+                                format!("after the GC pass: table {} survives (as {}), its active element segment {} does not [{}]", table, iso2.tables.fwd[table], i, p.origin),
+                            ));
+                        }
+                    }
+                }
+                for (i, d) in da.datas.iter().enumerate() {
+                    if let crate::decode::DataMode::Active { .. } = &d.mode {
+                        let i = i as u32;
+                        if !iso2.datas.fwd.contains_key(&i) && !iso2.ambiguous.contains(&("data", i)) {
+                            return Err(Failure::new(
+                                "after-gc:active-data-segment-dropped",
+                                format!("after the GC pass: active data segment {} is gone [{}]", i, p.origin),
+                            ));
+                        }
+                    }
+                }
+            }
             if let Err(m) = r2 {
                 if m.area == want {
                     return Err(Failure::new(
